@@ -55,9 +55,17 @@ def run(tier, only=None):
     for f in sorted(FIELDS):
         fn = "h_general" if f < 20 else "h_eml"
         conds.append(Cond("harness.h_c07", fn, t, part=f, ladder=ladder, label="%s[%s]" % (fn, FIELDS[f])))
+    from harness.hlib import AFFIXES
+    aff_general = [(0, a) for a in (1, 3, 4, 6, 7, 9)] + [(2, a) for a in (3, 6, 9, 10)] + [(1, 4), (8, 3)]
+    aff_eml = [(20, a) for a in (1, 3, 7, 9)] + [(21, a) for a in (3, 9, 10)]
+    for f, a in aff_general + aff_eml:
+        fn = "h_general" if f < 20 else "h_eml"
+        conds.append(Cond("harness.h_c07", fn, t, part=f, ladder=ladder, affix=a,
+                          label="%s[%s, around %r...%r]" % (fn, FIELDS[f], AFFIXES[a][0][:8], AFFIXES[a][1][:4])))
     if only:
         conds = [c for c in conds if only in c.label]
     rep.bounds = {"string_length": "<= %d (ladder %r)" % (ladder[0], ladder),
+                  "affixes": "selected fields also with the symbolic string embedded in concrete text (40/70-character runs; fragments such as '&&&]]', '<<<]]', '&am', '&#...;', digits, U+2028 + astral, backslashes) so that one or two symbolic characters can complete a multi-character token",
                   "alphabet": "class representatives: a 1 space < > & \" ' ] e-acute euro-sign U+1F600, text also TAB and LF (CR and non-Chars are outside the property)",
                   "shapes": "a 5-element tree (prefixes, shared and extended namespace maps, attributes, qualified attribute, tails, empty element, mixed "
                             "content) rendered with a concrete sentinel and scanned IN FULL at import; the symbolic value is rendered in a minimal tree around "
